@@ -42,7 +42,7 @@ def _sig(ev):
         return "PLS:monotone", "%s: rss ledger rejected %s" % (where, ev)
     if e == "Ols":
         return "PLS:ols", "%s: response %d: RSS(PLS, a=%s)/D = %.9f, RSS(OLS)/D = %.9f, |fitted PLS - fitted OLS| = %.3g (full rank: %d)" % (
-            where, ev["j"], cx.get("nlv"), ev.get("prev_", -1) * 1e-9, ev["rssOls"] * 1e-9, ev["err"] * 1e-12, ev["full"])
+            where, ev["j"], cx.get("nlv"), ev["rssPls"] * 1e-9, ev["rssOls"] * 1e-9, ev["err"] * 1e-12, ev["full"])
     if e == "Beta":
         return "PLS:beta", "%s: LV %d: coefficient form differs from score form by %.3g (training) / %.3g (unseen)" % (where, ev["a"], ev["errTrain"] * 1e-12, ev["errNew"] * 1e-12)
     if e == "Stat":
@@ -63,7 +63,7 @@ def _would_fail(e):
     if k == "Rss":
         return e.get("r2gap", 0) > TOL or e["rss"] > e.get("prev_", ONE) + TOLM
     if k == "Ols":
-        return (e["full"] == 1 and (e["err"] > TOL or abs(e.get("prev_", e["rssOls"]) - e["rssOls"]) > TOLM)) or e.get("prev_", ONE) < e["rssOls"] - TOLM
+        return (e["full"] == 1 and (e["err"] > TOL or abs(e["rssPls"] - e["rssOls"]) > TOLM)) or e["rssPls"] < e["rssOls"] - TOLM
     if k == "Beta":
         return e["errTrain"] > TOL or e["errNew"] > TOL
     if k == "Stat":
@@ -93,10 +93,10 @@ def model_part(ctx):
     ctx.add_tlc(r, "mc_pls_ls")
     if not r.ok:
         raise InfraError("Pls.tla (least-squares scope): ledger invariant %s fails:\n%s" % (r.violation, r.trace_text[:1500]))
-    z = r.zero_actions(ignore=("PBeta", "PStat", "PAffine"))     # pure checks: they leave the ledger state unchanged
-    idle = [a for a in ("PBeta", "PStat", "PAffine") if r.coverage.get(a, (0, 0))[1] == 0]
-    if z or idle:
-        raise InfraError("Pls.tla (least-squares scope): actions never taken: %s" % (z + idle))
+    # PBeta / PStat / PAffine are pure checks (ledger state unchanged): "taken" = TLC generated successors through them
+    z = ledgerkit.never_taken(r, ("PFit", "PRss", "POls", "PBeta", "PStat", "PAffine", "PEnd"))
+    if z:
+        raise InfraError("Pls.tla (least-squares scope): actions never taken: %s" % z)
     ctx.note("Pls.tla ledger (least-squares scope): %d states, invariants InvR2Range InvFloor hold, every action taken" % r.distinct)
 
 
@@ -199,8 +199,13 @@ def run(ctx):
         "ASan/UBSan build: any sanitizer report during a fit is a violation",
     ]
     model_part(ctx)
-    events = conformance(ctx, 400 if ctx.quick else 12000, 8 if ctx.quick else 16)
-    selftests(ctx, events)
+    events = conformance(ctx, 400 if ctx.quick else 40000, 8 if ctx.quick else 16)
+    try:
+        selftests(ctx, events)
+    except InfraError as e:
+        if not ctx.violations:
+            raise
+        ctx.note("binding self-test not conclusive on a trace that already carries violations: %s" % e)
 
 
 def replay(ctx, body):
